@@ -20,6 +20,31 @@ ENCODING_ASSUMPTIONS = [
 ]
 
 
+def load_baseline(prop):
+    path = os.path.join(ROOT, 'baseline', '%s.json' % prop)
+    if not os.path.exists(path):
+        return {}
+    with open(path) as fp:
+        return json.load(fp)
+
+
+def write_baseline(prop):
+    """Record which obligations are discharged on the current (unchanged) tree: bin/verif baseline <prop>."""
+    with open(os.path.join(ROOT, 'evidence', '%s.json' % prop)) as fp:
+        ev = json.load(fp)
+    out = {}
+    for f in ev['coverage']['functions_under_contract']:
+        out[f['function']] = {'sha256': f.get('sha256'), 'discharged': []}
+    for o in ev['coverage']['obligation_results']:
+        fn, _, label = o['id'].partition(':')
+        if fn in out and o['result'] == 'discharged':
+            out[fn]['discharged'].append(label)
+    os.makedirs(os.path.join(ROOT, 'baseline'), exist_ok=True)
+    with open(os.path.join(ROOT, 'baseline', '%s.json' % prop), 'w') as fp:
+        json.dump(out, fp, indent=1, sort_keys=True)
+    return out
+
+
 def registry():
     mod = importlib.import_module('contracts.registry')
     return mod.PROPS
@@ -45,6 +70,7 @@ def run_check(prop, tier='quick', seed=0, strict=False, procs=None):
     if not ok:
         checker_defects.append('django_evolution imports from %s, not from %s' % (got, REPO))
 
+    baseline = load_baseline(prop)
     families = []
     for modname in reg['families']:
         mod = importlib.import_module(modname)
@@ -88,6 +114,16 @@ def run_check(prop, tier='quick', seed=0, strict=False, procs=None):
             elif o['result'] == 'refuted':
                 violations.append(handle_refuted(prop, r, o, fam_by_name[r['family']]))
             else:
+                base = baseline.get(r['function'], {})
+                if o['label'] in base.get('discharged', []) and base.get('sha256') != r.get('sha256'):
+                    # the obligation was discharged on the unchanged tree; the function's text changed and the
+                    # solvers can no longer prove it: reported as a violation without a failing input
+                    violations.append(write_replay(prop, o['id'], {
+                        'function': r['function'], 'file': r.get('file'), 'obligation': o['id'], 'kind': o['kind'],
+                        'reproduced': False, 'family': r['family'], 'replayer': r['function'], 'label': o['label'],
+                        'solver_output': 'unknown (z3 e-matching, cvc5, z3 default all gave up); the same obligation '
+                                         'is discharged on the baseline source (sha256 %s), the analysed source has '
+                                         'sha256 %s' % (base.get('sha256'), r.get('sha256'))}))
                 undecided_functions.append((r['function'], 'obligation %s undecided by the solvers' % o['label']))
 
     # ---- 2. lemmas over contracts
@@ -307,7 +343,7 @@ def handle_bounded_failure(prop, b, f):
                'inputs': f.get('inputs'), 'observed': f.get('observed'), 'reproduced': True,
                'replayer': 'bounded:' + b.name, 'label': f.get('clause', ''),
                'solver_output': 'n/a (native bounded run of the same contract)'}
-    v = write_replay(prop, payload['obligation'] + '_' + str(abs(hash(json.dumps(f.get('inputs'), default=str, sort_keys=True))) % 10**8), payload)
+    v = write_replay(prop, payload['obligation'] + '_' + __import__('hashlib').sha1(json.dumps(f.get('inputs'), default=str, sort_keys=True).encode()).hexdigest()[:10], payload)
     v['known'] = known
     return v
 
